@@ -34,6 +34,9 @@ def check_refusal(rep, mod):
     name = mod.find(SIG_INV)
     fi = FnInfo(mod.fn(name))
     site = site_of(mod, name)
+    P_RESULT = fi.fn.params[0][1]      # positional: inv(Element &result, const Element &in1)
+    P_IN = fi.fn.params[1][1]
+
     def must_exit(start):
         """(all paths from `start` reach a process-ending call before a return, problems found on the way)"""
         bad_ = []
@@ -52,7 +55,7 @@ def check_refusal(rep, mod):
                     exits_ += 1
                     stop = True
                     break
-                if ins.op == 'store' and '%result' in fi.backward_slice(regs_of(ins.a[1])):
+                if ins.op == 'store' and P_RESULT in fi.backward_slice(regs_of(ins.a[1])):
                     bad_.append('a value is stored to result before the process is ended')
                 if ins.op == 'ret':
                     bad_.append('the refusing branch can return to the caller')
@@ -81,7 +84,7 @@ def check_refusal(rep, mod):
             rep.ok('refusal:must-exit', 'R-MUSTEXIT', '%s:%s' % (front.rel(f), l),
                    'one side of the guard ends the process on every path (%d exit sites) before any return or store to result' % exits)
         d = fi.defs.get(t.a[0][1]) if t.a[0][0] == 'r' else None
-        is_iz = bool(d and callee_name(d[1]) and re.match(r'^Goldilocks::isZero\(', mod.dem.get(callee_name(d[1]), '')) and d[1].a[1] == ('r', '%in1') and side == 0)
+        is_iz = bool(d and callee_name(d[1]) and re.match(r'^Goldilocks::isZero\(', mod.dem.get(callee_name(d[1]), '')) and d[1].a[1] == ('r', P_IN) and side == 0)
         if is_iz:
             rep.ok('refusal:guard-is-isZero', 'R-MUSTEXIT', '%s:%s' % (front.rel(f), l), 'the refusing side is taken exactly when isZero(in1) holds')
         else:
@@ -176,7 +179,7 @@ def check_inv_invariant(rep, mod):
     A = Poly.var('in1[0]')
     try:
         # base case: from the entry to the loop header
-        env = {'%result': Ptr(rout, 0), '%in1': Ptr(rin, 0)}
+        env = {fi.fn.params[0][1]: Ptr(rout, 0), fi.fn.params[1][1]: Ptr(rin, 0)}
         kind, prev, env1 = I.run_fragment(name, env, fi.fn.order[0], stop_at=hdr)
         if kind != 'stop':
             raise Incomplete('the loop header is not reached from the entry')
